@@ -178,6 +178,26 @@ func clauseLabel(c Clause, i int) string {
 
 // havoc forgets everything the loop may modify.
 func (fc *funcCtx) havoc(st *State, l *Loop) {
+	// rows that exist when the loop is entered and that no write in the loop can reach keep their contents
+	entryBound := plus(st.allocBase, smtInt(int64(st.allocOff)))
+	excluded := map[string][]string{}
+	framable := map[string]bool{}
+	for k := range l.HeapSorts {
+		if l.Unknown[k] || l.AllHeaps {
+			continue
+		}
+		ok := true
+		for _, al := range l.Writers[k] {
+			if !selfContained(l, al) {
+				ok = false
+				break
+			}
+			if sv, have := st.cells[al].(SliceV); have {
+				excluded[k] = append(excluded[k], sv.Ref)
+			}
+		}
+		framable[k] = ok
+	}
 	// allocation counter moves on; every slice value alive at the head points below it
 	nb0 := st.freshConst("allocbase", SInt)
 	st.assume(app("<=", app("+", st.allocBase, smtInt(int64(st.allocOff))), nb0))
@@ -201,7 +221,13 @@ func (fc *funcCtx) havoc(st *State, l *Loop) {
 			// the contents of every reference that is not the base of a written slice
 			// variable at loop entry and was allocated before the loop.
 			st.heaps[k] = nh
-			_ = old
+			if framable[k] {
+				conds := []string{app("<", "r", entryBound)}
+				for _, x := range excluded[k] {
+					conds = append(conds, not(app("=", "r", x)))
+				}
+				st.assume(fmt.Sprintf("(forall ((r Int)) (! (=> %s (= (select %s r) (select %s r))) :pattern ((select %s r))))", and(conds...), nh, old, nh))
+			}
 			if fc.frameChecked() {
 				// storage that existed when the function was entered is never written
 				// (that is what the `frame` obligations establish), so it still has its entry contents
